@@ -1,6 +1,7 @@
 import Driver.Loop
 import SquidModel.Smuggle.Delimit
 import SquidModel.Uri.Parse
+import SquidModel.Gen.SmuggleCfg
 open SquidModel SquidModel.Smuggle
 
 namespace Driver.C03
@@ -51,7 +52,8 @@ def handle (line : String) : String :=
     match Bytes.ofHex h with
     | none => "bad-op"
     | some stream =>
-      let cfg : Cfg := ⟨{ relaxed := mode == "r", limit := 65536, fixCr := Gen.Http1Request.fixCr, fixLine := Gen.Http1Request.fixLine }⟩
+      let cfg : Cfg := ⟨{ relaxed := mode == "r", limit := 65536, fixCr := Gen.Http1Request.fixCr, fixLine := Gen.Http1Request.fixLine },
+        Gen.SmuggleCfg.closeAfterTeCl, Gen.SmuggleCfg.rejectNonGet09⟩
       let r := delimit cfg urlView stream
       " ".intercalate (r.1.map msgStr ++ [finStr r.2])
   | _ => "bad-op"
